@@ -670,6 +670,11 @@ def crawl_page(fn: str, text: str) -> Dict[str, Any]:
                             links.append(("modindex", a.get("href"), a.get("title") or _text(a)))
                         else:
                             links.append(("modindex-sum", a.get("href"), a.get("title") or _text(a)))
+                code = li.find("code", recursive=False)
+                if code is not None and code.find("a") is None:
+                    # a row written without a link: taglink refused it (the module is not visible)
+                    entries.append(("roottext", _text(code), _has_private(li), "m"))
+                    texts.append(("modindex-root", _text(code)))
         elif stem == "classIndex" and tree is not None:
             for li in tree.find_all("li"):
                 for a in li.find_all("a", recursive=False):
@@ -727,6 +732,11 @@ def crawl_page(fn: str, text: str) -> Dict[str, Any]:
             for a in A(soup):
                 links.append(("indexroots", a.get("href"), a.get("title") or _text(a)))
                 entries.append(("indexroots", a.get("href"), False, ""))
+            for li in soup.find_all("li"):
+                kids = [c for c in li.children if getattr(c, "name", None)]
+                if len(kids) == 1 and kids[0].name == "code" and kids[0].find("a") is None:
+                    entries.append(("roottext", _text(kids[0]), False, "i"))
+                    texts.append(("indexroots", _text(kids[0])))
     else:
         # an object page
         done = set()
@@ -954,7 +964,7 @@ def impl_sections(res: Dict[str, Any]) -> Dict[str, str]:
     """the crawl, in the canonical per-producer form of the model's answer"""
     cr = res["crawl"]
     S: Dict[str, List[str]] = {k: [] for k in (
-        "files", "anchors", "classanchors", "classtexts", "search", "inventory", "inhierarchy",
+        "files", "anchors", "classanchors", "classtexts", "roottexts", "search", "inventory", "inhierarchy",
         "table", "inittable", "basetable", "detail", "sidebar-title", "sidebar", "sidebar-inherited", "heading", "classsig",
         "knownsub", "overrides", "overriddenin", "basename", "basevia", "xref", "extra", "sumcopy",
         "modindex", "modindex-sum", "classindex", "classindex-sum", "nameindex", "undoc", "indexroots", "alldocs",
@@ -988,6 +998,8 @@ def impl_sections(res: Dict[str, Any]) -> Dict[str, str]:
                 S["classanchors"].append(enc(ref))
             elif kind == "classindex-text":
                 S["classtexts"].append(enc(ref) + ">" + m)
+            elif kind == "roottext":
+                S["roottexts"].append(page + ">" + enc(ref) + ">" + (m if extra == "m" else "-"))
             elif kind == "alldocs":
                 ident, _, priv = extra.partition("\t")
                 S["alldocs"].append(enc(ident) + ">" + canon_url(ref) + ">" + ("1" if priv == "PRIVATE" else "0"))
